@@ -106,6 +106,41 @@ def xnames_program(rnd):
     return forms
 
 
+def localfun_program(rnd):
+    """local function names that repeat the name of a global function (or of a sibling binding): in flet the bodies
+    belong to the scope AROUND the flet (a body's call of its own or a sibling's name reaches the global), in labels to
+    the scope of the bindings; let values see the outer scope"""
+    g1, g2 = rnd.sample(["scale", "shift", "norm", "step"], 2)
+    k = rnd.randrange(2, 6)
+    forms = [[S("defun"), S(g1), [S("x")], [S("*"), S("x"), 10]],
+             [S("defun"), S(g2), [S("x")], [S("+"), S("x"), k]],
+             [S("defun"), S("use-flet"), [S("v")],
+              [S("flet"), [[S(g1), [S("x")], [S(g1), [S("+"), S("x"), 1]]],
+                           [S(g2), [S("x")], [S(g1), [S(g2), S("x")]]]],
+               [S("list"), [S(g1), S("v")], [S(g2), S("v")]]]],
+             [S("defun"), S("use-labels"), [S("v")],
+              [S("labels"), [[S(g1), [S("x")], [S("if"), [S(">"), S("x"), 100], S("x"), [S(g1), [S("*"), S("x"), 2]]]],
+                             [S(g2), [S("x")], [S(g1), [S("+"), S("x"), 1]]]],
+               [S("list"), [S(g1), S("v")], [S(g2), S("v")]]]],
+             [S("defun"), S("use-let"), [S("v")],
+              [S("let"), [[S("loc"), [S("lambda"), [S("x")], [S(g1), [S(g2), S("x")]]]], [S("aux"), [S(g1), 2]]], [S("list"), [S("funcall"), S("loc"), S("v")], S("aux")]]],
+             [S("defun"), S("use-nested"), [S("v")],
+              [S("flet"), [[S(g1), [S("x")], [S("flet"), [[S(g2), [S("y")], [S(g2), [S(g1), S("y")]]]], [S(g2), S("x")]]]],
+               [S(g1), S("v")]]],
+             [S("defun"), S("use-macrolet"), [S("v")],
+              [S("macrolet"), [[S(g2), [S("e")], [S("quasiquote"), [S(g1), [S("unquote"), S("e")]]]]], [S(g2), S("v")]]],
+             # a local macro whose body reads a variable of the enclosing scope while expanding; a macro defined inside
+             # another form whose template names a global function
+             [S("defun"), S("use-mlocal"), [S("v")],
+              [S("let"), [[S("kk"), 7]], [S("macrolet"), [[S("mk"), [S("e")], [S("quasiquote"), [S("+"), [S("unquote"), S("kk")], [S(g2), [S("unquote"), S("e")]]]]]], [S("mk"), S("v")]]]],
+             [S("progn"), [S("defmacro"), S("inner-mac"), [S("e")], [S("quasiquote"), [S(g1), [S(g2), [S("unquote"), S("e")]]]]], 0],
+             [S("probe"), Q(S("mlocal")), [S("use-mlocal"), 3]], [S("probe"), Q(S("inner-mac")), [S("inner-mac"), 4]],
+             [S("probe"), Q(S("flet")), [S("use-flet"), 3]], [S("probe"), Q(S("labels")), [S("use-labels"), 3]],
+             [S("probe"), Q(S("let")), [S("use-let"), 3]], [S("probe"), Q(S("nested")), [S("use-nested"), 3]],
+             [S("probe"), Q(S("macrolet")), [S("use-macrolet"), 3]], [S("probe"), Q(S("globals")), [S(g1), 1], [S(g2), 1]]]
+    return forms
+
+
 def static_refs(e):
     """the property covers programs whose names are resolved statically: a quoted symbol handed to funcall / apply
     names a function at RUN time, so such references are rewritten to ordinary (statically resolved) ones"""
@@ -182,6 +217,11 @@ def _run(V, work, tier):
         sessions.append(("random%d" % i, [P.src(static_refs(c01.random_program(rnd)))], False, None))
     for i in range(120 if thorough else 30):
         sessions.append(("xnames%d" % i, [P.src(xnames_program(rnd))], False, None))
+    for i in range(12 if thorough else 4):
+        sessions.append(("localfun%d" % i, [P.src(localfun_program(rnd))], False, None))
+    # a closure made in a let VALUE that calls the name the let binds it to (next to a global function of that name): at
+    # run time the closure belongs to the let's own environment and reaches itself (lisp/op.go keeps a BUG note about it)
+    sessions.append(("letself", ["(defun cnt (n) 'global)\n(defun use (v) (let ((cnt (lambda (n) (if (<= n 0) 'local-done (cnt (- n 1)))))) (funcall cnt v)))\n(probe 'r (use 2))\n"], False, None))
     # literal spellings the compact printer must carry over unchanged in VALUE (exponent forms, trailing zeros, escapes)
     LITS = ["1e10", "2.50e-10", "1.5e20", "3e0", "100.0", "1.0", "0.10", "-0.0", "1e-7", "12300.0", "1E3", "6.02e+23", "0x10", "-5", "007",
             '"a\\nb"', '"q\\"q"', "'sym", ":kw", "'(1 2.0 3e2)", '"tab\\there"']
@@ -229,6 +269,8 @@ def _run(V, work, tier):
             key = None
             if oname in ("default", "exclusions") and name.startswith("pkg"):
                 key = "export-renamed"
+            if name == "letself":
+                key = "let-closure-self-reference"
             V.add(key, "minified session behaves differently from the original (%s)" % oname,
                   {"files": files, "feats": feats, "kind": name.rstrip("0123456789"), "minified": r["outputs"], "map": r["map"]["m2o"], "original_result": a[-1][0][:300], "minified_result": b[-1][0][:300]})
         cases.append({"id": cid, "orig": [to_tree(x) for t in r["trees_in"] for x in t["trees"]], "min": [to_tree(x) for t in r["trees_out"] for x in t["trees"]],
